@@ -387,11 +387,59 @@ fn pkh_psbt(w: &RWorld, u: usize, form: usize, wrap: usize, in_bip32: bool) -> O
     Some(psbt.serialize())
 }
 
+/// one-input PSBT spending p2wsh(script) / p2tr(leaf = script) whose input is ALREADY finalized
+/// with `stack ++ [script (, control block)]`: PsbtExt::extract interprets it
+fn short_psbt(w: &RWorld, sc: &[u8], stack: Vec<Vec<u8>>, tap: bool) -> Option<Vec<u8>> {
+    let script = ScriptBuf::from_bytes(sc.to_vec());
+    let mut inp = bitcoin::psbt::Input::default();
+    let mut wit = stack;
+    let spk = if tap {
+        let internal = w.w.pks[1].inner.x_only_public_key().0;
+        let info = TaprootBuilder::new().add_leaf(0, script.clone()).ok()?.finalize(&w.secp, internal).ok()?;
+        let cb = info.control_block(&(script.clone(), LeafVersion::TapScript))?;
+        wit.push(sc.to_vec());
+        wit.push(cb.serialize());
+        inp.tap_scripts.insert(cb, (script.clone(), LeafVersion::TapScript));
+        inp.tap_internal_key = Some(internal);
+        ScriptBuf::new_p2tr_tweaked(info.output_key())
+    } else {
+        wit.push(sc.to_vec());
+        inp.witness_script = Some(script.clone());
+        script.to_p2wsh()
+    };
+    inp.final_script_witness = Some(Witness::from_slice(&wit));
+    let prev = prev_tx(&spk, 0, 1, 13);
+    inp.witness_utxo = Some(prev.output[0].clone());
+    let tx = Transaction {
+        version: bitcoin::transaction::Version::TWO,
+        lock_time: absolute::LockTime::ZERO,
+        input: vec![TxIn { previous_output: OutPoint { txid: prev.compute_txid(), vout: 0 }, script_sig: ScriptBuf::new(), sequence: Sequence::from_consensus(0xffff_fffd), witness: Witness::new() }],
+        output: vec![TxOut { value: Amount::from_sat(1000), script_pubkey: ScriptBuf::from_bytes(vec![0x51]) }],
+    };
+    let mut psbt = Psbt::from_unsigned_tx(tx).ok()?;
+    psbt.inputs[0] = inp;
+    Some(psbt.serialize())
+}
+
 pub const N_PSBT_PKH: u64 = 2 * 4 * 3 * 2; // uncompressed key x script form x wrapping x in bip32_derivation?
 /// the minimised PSBT of the thorough-tier finding (regen 1:92935), kept as a regression input
 const CORPUS_PKLEN: &str = include_str!("corpus_psbt_pklen.hex");
 
 pub fn g_psbt(w: &RWorld, rng: &mut Rng, _idx: u64) -> (Input, &'static str) {
+    // finalized inputs with SHORT witnesses (extract runs the interpreter over them) and
+    // unfinalized ones the finalizer cannot satisfy, per directed script
+    let short_base = N_PSBT_DEEP + N_PSBT_PKH + 1;
+    let n_scripts = (w.directed[0].len() + w.directed[1].len()) as u64;
+    if _idx >= short_base && _idx < short_base + n_scripts * 14 {
+        let j = _idx - short_base;
+        let (si, r) = ((j / 14) as usize, (j % 14) as usize);
+        // homogeneous stacks: empties of length 0..6, then 01 / junk / sig of length 1..2 ... via short_case's table
+        let rr = if r < 7 { 121 + r * 6 } else { 85 + (r - 7) };
+        let (sc, stack, kind) = short_case(w, si, rr, 0xffff_fffd, 0);
+        if let Some(b) = short_psbt(w, &sc, stack, kind == 4) {
+            return (Input::Psbt { psbt: b, idx: 0, desc: String::new() }, "short-final-witness");
+        }
+    }
     if _idx == N_PSBT_DEEP {
         if let Some(b) = gen::unhex(CORPUS_PKLEN.trim()) {
             return (Input::Psbt { psbt: b, idx: usize::MAX, desc: String::new() }, "corpus-raw-pkh-uncompressed");
